@@ -361,14 +361,20 @@ namespace cds { namespace gc {
             void extend()
             {
                 assert( list_head_ != nullptr );
-                assert( current_block_ == list_tail_ );
-                assert( current_cell_ == current_block_->last());
 
                 retired_block* block = retired_allocator::instance().alloc();
                 assert( block->next_ == nullptr );
 
-                current_block_ = list_tail_ = list_tail_->next_ = block;
-                current_cell_ = block->first();
+                bool const bFull = current_block_ == list_tail_ && current_cell_ == current_block_->last();
+                list_tail_ = list_tail_->next_ = block;
+                if ( bFull ) {
+                    // the array is completely full: go on in the new block
+                    current_block_ = block;
+                    current_cell_ = block->first();
+                }
+                // Otherwise scan() has freed some items and compacted the rest: the current position is inside
+                // an old block and the cells behind it are free (they still hold pointers already freed).
+                // push() will reach the new block when the old ones are filled again.
                 ++block_count_;
                 CDS_HPSTAT( ++extend_call_count_ );
             }
